@@ -4,11 +4,17 @@ E3 small-scope enumeration.  Strings: every string of length <= 4 over
 {a, b, space, e-acute} plus Unicode samples, under every function of
 yaql/standard_library/strings.py with every start in [-len, len+2] and length
 in [-2, len+2], separators '' 'a' 'ab' ' ' null, overlapping replacement
-dictionaries, all 4096 subsets of the characters(...) flags.  Regex: every
-concatenation of <= 3 atoms of {a b . (a) (?P<x>b) a* (a|b) ^ $} under all 8
-flag combinations against strings over {a, b, newline} plus upper-case /
-Unicode samples, through matches, =~, !~, search, searchAll, split, replace,
-replaceBy, with selector lambdas reading $1 $2 $3 $x.  Every finalised result
+dictionaries, replacement dictionaries with keys and values of every scalar
+type (different keys spelled alike: 1 / '1', null / 'null', true / 'true'),
+all 4096 subsets of the characters(...) flags.  Regex: every concatenation of
+<= 3 atoms of {a b . (a) (?P<x>b) a* (a|b) ^ $ (b)? ((a)b) (?P<y>a)?
+(?:(?P<z>a)|(?P<w>b)) (?P<o>(?P<n>a)|b)} - numbered and named groups, also
+optional, in one arm of an alternation and nested in such an arm, so that they
+stay out of some matches - under all 8 flag combinations against strings over
+{a, b, newline} plus upper-case / Unicode samples, through matches, =~, !~,
+search, searchAll, split, replace, replaceBy, with selector lambdas reading
+$1 $2 $3 $x and, generated per pattern, the value / start / end field of every
+numbered and every named record the pattern publishes.  Every finalised result
 is compared exactly (value and type) with models/strs.py / models/rx.py.
 """
 import collections.abc
@@ -38,7 +44,10 @@ ASSUMPTIONS = [
     'substring (docstring) and, by the same convention, for the 3-argument indexOf/lastIndexOf; other negative '
     'lengths, starts below -len, empty separators/old strings, negative limits other than the documented default '
     'are out of domain',
-    'replace(dict) applies the keys one after another in dictionary order, as the three docstring examples show',
+    'replace(dict) applies the entries one after another in dictionary order, as the three docstring examples show; '
+    'an entry with a non-string key or value stands for the str() of both (the library\'s own test replaces '
+    '{1 => y, 2 => false, null => "!"}); keys that are equal as dictionary keys (1 and true) are not put into one '
+    'dictionary',
     'matches / =~ mean "some substring matches" (the meaning search documents); a group that took no part in a '
     'match is published as {value: null, start: -1, end: -1} (re convention)',
     'characters(letters/lowercase/uppercase) denote the ASCII letters (locale-independent reading of the docstring)',
@@ -47,19 +56,28 @@ BOUNDS = {
     'quick': 'strings: all of length <= 3 over {a,b,space,e-acute} (85) + 16 Unicode samples under every string function '
              '(substring start x length, indexOf/lastIndexOf with 6 substrings x start, split/rightSplit x 5 separators x '
              '4 limits, trim family x 5 char sets, replace 6x4x5, 16 ordered dictionaries x 4 counts, affixes, operators); '
+             'typed replacement dictionaries: keys {a, "1", 1, null, "null", true, "true"} x values {x, 1, null}, every '
+             'one-entry dictionary and every ordered pair of entries with different keys (381) x 27 subjects made of the '
+             'spellings x (literal without count, count 1, 2; passed as data without count, count => 1); '
              'the 16 strings of length 4 over {a,b} under substring with every start x length; 4-argument indexOf/lastIndexOf on '
-             'length <= 2 (all substrings) and length 3 (1 substring); all 4096 characters() flag subsets; regex (11 atoms): the '
-             '133 patterns of <= 2 atoms x 6 core forms x (16 strings without flags, 8 strings under each of the 7 other '
+             'length <= 2 (all substrings) and length 3 (1 substring); all 4096 characters() flag subsets; regex (14 atoms, 4 of '
+             'them with a group that can stay out of a match, 3 of these named): the '
+             '211 patterns of <= 2 atoms x 6 core forms x (16 strings without flags, 8 strings under each of the 7 other '
              'flag sets) + 20 further forms without flags on 8 strings; the 3-atom patterns without flags x 2 strings x 6 '
-             'core forms; '
+             'core forms; for every pattern with a group the 3 generated field forms (search, searchAll, replaceBy reading '
+             'value/start/end of every numbered and named record) wherever the core forms run without flags or with all '
+             'three flags, and 2 more replaceBy field forms (string receiver, counts) where the further forms run; '
              'every (pattern <= 2 atoms, flag set) also built with positional flags, a skipped slot, on the legacy engine '
              'and through context("regex", engine)(...), each judged by searchAll on 4 flag-sensitive probes; a '
-             'representative form of every function family (21 string forms x 37 strings, characters, 6 regex forms x 12 '
-             'patterns x 17 strings) under 3 engine option sets (iterator/memory limits, convertOutputData off, '
+             'representative form of every function family (21 string forms x 37 strings, characters, 6 regex forms and the '
+             '3 field forms x 15 patterns x 17 strings) under 3 engine option sets (iterator/memory limits, convertOutputData off, '
              'convertInputData off)',
     'thorough': 'strings: all of length <= 4 (341) + 16 samples under every string function, 10 substrings, 4-argument '
-                'indexOf/lastIndexOf on all, operators against all strings of length <= 3; regex: all patterns of <= 3 '
-                'atoms x 8 flag sets x 28 strings x 6 core forms, and without flags 26 forms x 28 strings (55 strings for <= 2 atoms); '
+                'indexOf/lastIndexOf on all, operators against all strings of length <= 3; typed replacement dictionaries: '
+                '11 keys (also 12, "12", false, "false") x 5 values (also "", true), one and two entries (2755), '
+                'x 49 subjects x (literal without count, count 0, 1, 2; as data without count, count => -1, 1); regex: all '
+                'patterns of <= 3 atoms x 8 flag sets x 28 strings x 6 core forms (+ the 3 generated field forms for patterns '
+                'with groups: <= 2 atoms under every flag set, 3 atoms without flags and with all three), and without flags 26 forms (+ 2 field forms) x 28 strings (55 strings for <= 2 atoms); '
                 'the 4 other flag spellings for every (pattern <= 2 atoms, flag set) and for 3-atom patterns where multiLine != dotAll; '
                 'the option-set runs as in quick',
 }
@@ -97,7 +115,38 @@ DICTS = [
     [('ab', 'Z'), ('a', 'X'), ('b', 'Y')], [('a', 'a')], [('ba', 'ab'), ('ab', 'ba')], [],
 ]
 
-ATOMS = ['a', 'b', '.', '(a)', '(?P<x>b)', 'a*', '(a|b)', '^', '$', '(b)?', '((a)b)']   # optional group: may not participate; nested groups
+# replacement dictionaries whose keys and values are not all strings: every one-entry dictionary and every ordered
+# pair of entries with different keys (keys that are EQUAL as dictionary keys - 1 and true - are one key of a
+# dictionary, not two entries, and are left out), so that different keys with the same spelling (1 / '1',
+# null / 'null', true / 'true', 12 / '12'), keys that are substrings of one another (1 / 12), and values that feed
+# the next key ('a' => 1, 1 => 'x') all occur in both orders.  Subjects: concatenations of the spellings.
+TKEYS_Q = ['a', '1', 1, None, 'null', True, 'true']
+TKEYS_T = TKEYS_Q + [12, '12', False, 'false']
+TVALS_Q = ['x', 1, None]
+TVALS_T = TVALS_Q + ['', True]
+TTOKENS_Q = ['a', '1', 'null', 'true']
+TTOKENS_T = TTOKENS_Q + ['2', 'false']
+TSUBJECTS_3 = ['a1b1', 'a12b1', '1null1', 'truetrue1', '1a1a1', '12121']
+
+
+def typed_dicts(tier):
+    keys, vals = (TKEYS_T, TVALS_T) if tier == 'thorough' else (TKEYS_Q, TVALS_Q)
+    out = [[(k, v)] for k in keys for v in vals]
+    for k1, k2 in itertools.permutations(keys, 2):
+        if k1 != k2:
+            out.extend([(k1, v1), (k2, v2)] for v1, v2 in itertools.product(vals, repeat=2))
+    return out
+
+
+def typed_subjects(tier):
+    return over(TTOKENS_T if tier == 'thorough' else TTOKENS_Q, 2) + TSUBJECTS_3
+
+
+# named groups: x always takes part; y is optional, z / w are the two arms of an alternation, n is nested in one arm
+# of the alternation inside o - each of them stays out of some matches (every atom has its own names, so that any
+# two different atoms can be combined)
+ATOMS = ['a', 'b', '.', '(a)', '(?P<x>b)', 'a*', '(a|b)', '^', '$', '(b)?', '((a)b)',   # optional group: may not participate; nested groups
+         '(?P<y>a)?', '(?:(?P<z>a)|(?P<w>b))', '(?P<o>(?P<n>a)|b)']
 FLAGSETS = list(itertools.product([False, True], repeat=3))      # (ignoreCase, multiLine, dotAll)
 RX_SAMPLES = ['A', 'aB', 'Ab\n', 'B\nA', '\xe9', 'a\xe9b', ' a ', 'abab', 'baab', 'a\nb\n', 'aaaa',
               '\U0001f600a', 'AB\nab', '\n\nb', 'bbab']
@@ -126,7 +175,8 @@ def _v(env, name, field=None):
     return rec if field is None or rec is None else rec[field]
 
 
-SEL_ALL = ('[$, $1, $2, $3, $x]', lambda e: [_v(e, '1'), _v(e, '1'), _v(e, '2'), _v(e, '3'), _v(e, 'x')])
+SEL_ALL = ('[$, $1, $2, $3, $x, $y, $n]',       # whole records; a name the pattern does not publish reads null
+           lambda e: [_v(e, '1'), _v(e, '1'), _v(e, '2'), _v(e, '3'), _v(e, 'x'), _v(e, 'y'), _v(e, 'n')])
 SELECTORS = [
     ('$', lambda e: _v(e, '1')),
     ('$.start', lambda e: _v(e, '1', 'start')),
@@ -183,6 +233,50 @@ MORE_FORMS = [
     ('replaceBy empty count=2', '$r.replaceBy($s, %s, count => 2)' % LAM_EMPTY[0],
      lambda rx, s: R.replace_by(rx, s, LAM_EMPTY[1], 2)),
 ]
+
+
+# Selectors generated from the pattern: they read the value, start and end field of EVERY record a match of the
+# pattern publishes - $1 (whole match), $2.. (the numbered groups, named ones included) and every group name.
+# null and '' stay distinct (a list element, or str() = 'null' in a replacement; the subjects never contain "null").
+def published(rx):
+    return [str(i + 1) for i in range(rx.groups + 1)] + sorted(rx.groupindex, key=rx.groupindex.get)
+
+
+def fields_selector(rx):
+    names = published(rx)
+    text = '[%s]' % ', '.join('[$%s.value, $%s.start, $%s.end]' % (n, n, n) for n in names)
+    return text, lambda e: [[_v(e, n, 'value'), _v(e, n, 'start'), _v(e, n, 'end')] for n in names]
+
+
+def fields_lambda(rx):
+    names = published(rx)
+    text = ' + '.join("'<' + str($%s.value) + ',' + str($%s.start) + ',' + str($%s.end) + '>'" % (n, n, n)
+                      for n in names)
+    return text, lambda e: ''.join('<%s,%s,%s>' % (_s(_v(e, n, 'value')), _s(_v(e, n, 'start')), _s(_v(e, n, 'end')))
+                                   for n in names)
+
+
+def _group_form(text, build, model):
+    def form(rx):
+        sel_text, sel = build(rx)
+        return text % sel_text, lambda rx_, s: model(rx_, s, sel)
+    return form
+
+
+# name -> function of the model's compiled pattern giving (yaql text, model call on (rx, s))
+GROUP_CORE_FORMS = [
+    ('search fields', _group_form('$r.search($s, %s)', fields_selector, R.search)),
+    ('searchAll fields', _group_form('$r.searchAll($s, %s)', fields_selector, R.search_all)),
+    ('replaceBy fields', _group_form('$r.replaceBy($s, %s)', fields_lambda, R.replace_by)),
+]
+GROUP_MORE_FORMS = [
+    ('replaceBy fields count=2', _group_form('$r.replaceBy($s, %s, count => 2)', fields_lambda,
+                                             lambda rx, s, f: R.replace_by(rx, s, f, 2))),
+    ('replaceBy str-receiver fields count=1', _group_form('$s.replaceBy($r, %s, 1)', fields_lambda,
+                                                          lambda rx, s, f: R.replace_by(rx, s, f, 1))),
+]
+GROUP_FORMS = dict(GROUP_CORE_FORMS + GROUP_MORE_FORMS)
+
 # pattern given as a string (no flags possible)
 TEXT_FORMS = [
     ('matches str-pattern', '$s.matches($p)', lambda rx, s: R.matches(rx, s)),
@@ -191,7 +285,12 @@ TEXT_FORMS = [
 ]
 FORMS = {name: (text, fn) for name, text, fn in CORE_FORMS + MORE_FORMS + TEXT_FORMS}
 USES_SELECTOR = {name for name, text, fn in CORE_FORMS + MORE_FORMS if ('search' in name and 'sel' in name)
-                 or name.startswith('replaceBy')}
+                 or name.startswith('replaceBy')} | set(GROUP_FORMS)
+
+
+def form_of(name, rx):
+    """(yaql text, model call) of a regex form; the group forms depend on the pattern's groups."""
+    return GROUP_FORMS[name](rx) if name in GROUP_FORMS else FORMS[name]
 
 KEY_NAMED = ('regex selector/replaceBy over a pattern with a named group raises ValueError '
              '(_publish_match unpacks groupdict().values())')
@@ -273,17 +372,28 @@ def show(v):
     return r if len(r) < 300 else r[:300] + '...'
 
 
-def judge(res, site, text, variables, call, key=None, options=None):
+def with_dicts(variables, dict_vars):
+    """`dict_vars` = {name: [(key, value), ...]}: variables holding a dictionary with these entries (kept as
+    pairs in the case description: JSON object keys can only be strings)."""
+    if not dict_vars:
+        return variables
+    return dict(variables, **{name: dict((k, v) for k, v in pairs) for name, pairs in dict_vars.items()})
+
+
+def judge(res, site, text, variables, call, key=None, options=None, dict_vars=None):
     """Run one string-function case.  `call` = (model function name, args)."""
     case = {'kind': 'str', 'site': site, 'text': text, 'vars': variables, 'call': [call[0], list(call[1])]}
     ident = (site, text, sorted(variables.items(), key=repr))
+    if dict_vars:
+        case['dict_vars'] = dict_vars
+        ident += (repr(sorted(dict_vars.items())),)
     if options:
         case['options'] = options
         ident += (options,)
         key = key or 'model-mismatch fn=%s options=%s' % (site, options)
     res.case(ident)
     exp = getattr(S, call[0])(*call[1])
-    obs = observe(text, variables, options)
+    obs = observe(text, with_dicts(variables, dict_vars), options)
     res.evaluations += 1
     res.transitions += 1
     if exp is None:
@@ -304,8 +414,36 @@ def quote(s):
     return "'" + s + "'"
 
 
+def literal(v):
+    """null, true, false and numbers as the language spells them; strings quoted."""
+    return quote(v) if isinstance(v, str) else _s(v)
+
+
 def dict_literal(pairs):
-    return '{' + ', '.join('%s => %s' % (quote(k), quote(v)) for k, v in pairs) + '}'
+    return '{' + ', '.join('%s => %s' % (literal(k), literal(v)) for k, v in pairs) + '}'
+
+
+def job_typed_dicts(tier, dicts):
+    """string.replace(dictionary[, count]) with keys and values of every scalar type, the dictionary written as a
+    literal and passed as data."""
+    res = Result()
+    thorough = tier == 'thorough'
+    subjects = typed_subjects(tier)
+    for pairs in dicts:
+        lit = dict_literal(pairs)
+        pairs = [list(e) for e in pairs]
+        for s in subjects:
+            v = {'s': s}
+            judge(res, 'replace-dict typed/2', '$s.replace(%s)' % lit, v, ('replace_dict', (s, pairs)))
+            for k in (0, 1, 2) if thorough else (1, 2):
+                judge(res, 'replace-dict typed/3', '$s.replace(%s, $k)' % lit, dict(v, k=k),
+                      ('replace_dict', (s, pairs, k)))
+            judge(res, 'replace-dict typed/var', '$s.replace($d)', v, ('replace_dict', (s, pairs)),
+                  dict_vars={'d': pairs})
+            for k in (-1, 1) if thorough else (1,):
+                judge(res, 'replace-dict typed/var', '$s.replace($d, count => $k)', dict(v, k=k),
+                      ('replace_dict', (s, pairs, k)), dict_vars={'d': pairs})
+    return res
 
 
 def job_strings(tier, strings):
@@ -516,7 +654,7 @@ def judge_spelling(res, spelling, p, flags, rx):
 
 
 def judge_rx(res, name, p, flags, s, robj, rx, options=None):
-    text, model = FORMS[name]
+    text, model = form_of(name, rx)
     case = {'kind': 'rx', 'form': name, 'pattern': p, 'flags': list(flags), 's': s}
     ident = ('rx', name, p, flags, s)
     if options:
@@ -575,9 +713,17 @@ def job_regex(tier, pats):
             for s in strings:
                 for name, _, _ in CORE_FORMS:
                     judge_rx(res, name, p, flags, s, robj[1], rx)
+                # without a group the generated selectors read $1 only (as SELECTORS[2]); under the 6 other flag
+                # sets only in the thorough tier for <= 2 atoms
+                if rx.groups and (plain or all(flags) or (thorough and not atoms3)):
+                    for name, _ in GROUP_CORE_FORMS:
+                        judge_rx(res, name, p, flags, s, robj[1], rx)
                 if plain and (thorough or (not atoms3 and s in RX_MORE_Q)):
                     for name, _, _ in MORE_FORMS:
                         judge_rx(res, name, p, flags, s, robj[1], rx)
+                    if rx.groups:
+                        for name, _ in GROUP_MORE_FORMS:
+                            judge_rx(res, name, p, flags, s, robj[1], rx)
                     for name, _, _ in TEXT_FORMS:
                         judge_rx(res, name, p, flags, s, None, rx)
         if len(res.samples) < 2 and p:
@@ -644,7 +790,7 @@ def job_options(tier, options):
                          {'kind': 'regex', 'pattern': p, 'flags': list(flags)}, 'observed %s' % show(robj))
                 continue
             for s in RX_STRINGS_2 + RX_FLAG_PROBES:
-                for name, _, _ in CORE_FORMS:
+                for name in [n for n, _, _ in CORE_FORMS] + ([n for n, _ in GROUP_CORE_FORMS] if rx.groups else []):
                     judge_rx(res, name, p, flags, s, robj[1], rx, options)
     return res
 
@@ -655,6 +801,10 @@ def jobs(tier, seed):
     for i in range(n_str):
         out.append(('strings-%02d' % i, 'job_strings', (tier, STRINGS[i::n_str])))
     out.append(('misc', 'job_misc', (tier,)))
+    dicts = typed_dicts(tier)
+    n_td = 16 if tier == 'thorough' else 6
+    for i in range(n_td):
+        out.append(('typed-dicts-%d' % i, 'job_typed_dicts', (tier, dicts[i::n_td])))
     pats = patterns(3)
     n_rx = 30
     for i in range(n_rx):
@@ -669,7 +819,7 @@ def replay(case):
     k = case['kind']
     if k == 'str':
         exp = getattr(S, case['call'][0])(*case['call'][1])
-        obs = observe(case['text'], case['vars'], case.get('options'))
+        obs = observe(case['text'], with_dicts(case['vars'], case.get('dict_vars')), case.get('options'))
         return {'observed': show(obs), 'expected': show(exp), 'ok': exp is None or agree(obs, exp)}
     if k == 'characters':
         exp = S.characters(case['flags'])
@@ -687,7 +837,7 @@ def replay(case):
     if k == 'rx':
         flags = tuple(case['flags'])
         rx = R.compile_(case['pattern'], *flags)
-        text, model = FORMS[case['form']]
+        text, model = form_of(case['form'], rx)
         exp = model(rx, case['s'])
         if text.find('$p') >= 0:
             obs = observe(text, {'s': case['s'], 'p': case['pattern']}, case.get('options'))
